@@ -275,7 +275,7 @@ impl Prop for C04 {
 		"A scenario is (schema incl. recursive ones, byte string, limit configuration, target, input path). Byte strings are fault-derived: a valid reference encoding in which one length / count / block-size / union-index / enum-index varint is replaced by a hostile number (-1, i64::MIN, i64::MAX, 2^62, 2^31, count+1, count-1, ...), 1-3 byte replacements or bit flips, truncation, insertions, random bytes, and nesting streams of depth limit-1, limit, limit+1, 1000 and 200000 for three recursive schemas; valid encodings are kept too (two-sided limit oracles). \
 		 Limit configurations (swarm): allowed_depth in {0,1,2,3,8,64}, max_seq_size in {0,1,2,10,1000,100000}, max_alloc_size in {0,1,16,4096,2^20}; slice path and SimSource (Whole, Fixed(1), Fixed(7), cyclic, BufReader). \
 		 Monitors: Ok/Err only (panic caught; abort / stack overflow with the default 8 MiB main-thread stack / allocation above 256 MiB / 60 s hang detected from the parent process); SimAlloc peak and largest request against max_alloc_size and input length with allocation-free targets; zero allocations on the slice path on success; source step budget; visitor callback budget. \
-		 An evaluation is one decode. Non-trivial = a hostile field / damage / limit below the value's needs is present; distinct = distinct (schema shape class, generator kind, limit configuration class, path, target, outcome class). Valid encodings include deliberately large-scale ones (two-byte counts and indices, hundreds of fields / branches / symbols, lists 8-15 deep). One scenario in 256 is a nesting stream 4-34 times deeper than allowed_depth decoded AGAIN AND AGAIN on the same deserializer state after every refusal (20-220 attempts): no attempt may return a value nested deeper than the limit. One scenario in 512 is a LONG stream: 250-1150 valid datums (sizes constant / growing / shrinking / sawtooth / small with a large one every 16-1024) decoded through ONE deserializer state under limits that the most demanding single datum just fits (per-datum limits must not accumulate; memory stays within the bound stated over the whole stream; the slice path still allocates nothing). Ignoring and partly ignoring targets (fields left to deserialize_ignored_any through the simulator's own counting visitor) are judged too: work in callbacks, the element limit where nothing can be skipped unseen, what is kept, and where the decoder stops."
+		 An evaluation is one decode. Non-trivial = a hostile field / damage / limit below the value's needs is present; distinct = distinct (schema shape class, generator kind, limit configuration class, path, target, outcome class). Valid encodings include deliberately large-scale ones (two-byte counts and indices, hundreds of fields / branches / symbols, lists 8-15 deep). One scenario in 256 is a nesting stream 4-34 times deeper than allowed_depth decoded AGAIN AND AGAIN on the same deserializer state after every refusal (20-220 attempts): no attempt may return a value nested deeper than the limit. One scenario in 512 is a LONG stream: 250-1150 valid datums (sizes constant / growing / shrinking / sawtooth / small with a large one every 16-1024) decoded through ONE deserializer state under limits that the most demanding single datum just fits (per-datum limits must not accumulate; memory stays within the bound stated over the whole stream; the slice path still allocates nothing). The capturing target also asks every sequence / map accessor for its size_hint(), as Vec and HashMap targets do: a hint above what the input could hold (elements at least one byte wide) is a number written in the input handed to the caller's allocator. Ignoring and partly ignoring targets (fields left to deserialize_ignored_any through the simulator's own counting visitor) are judged too: work in callbacks, the element limit where nothing can be skipped unseen, what is kept, and where the decoder stops."
 	}
 	fn assumptions(&self) -> Vec<String> {
 		vec![
@@ -535,6 +535,7 @@ impl Prop for C04 {
 		// work bound, in visitor callbacks: the ignoring target gives up right above it instead of spinning
 		let cb_bound = (len as u64 + 2) * (scn.limits.max_seq_size as u64 + 2) * 4 + 64;
 		world::IGNORE_CALLBACK_CAP.with(|c| c.set(cb_bound + 1));
+		crate::capture::SIZE_HINT_WATCH.with(|w| w.set((len, None)));
 		world::VIA_TAKE.with(|v| v.set(scn.via_take));
 		if scn.via_take {
 			out.count("reader_path_through_take", 1);
@@ -550,8 +551,14 @@ impl Prop for C04 {
 		let st = guard.stats();
 		drop(guard);
 		world::VIA_TAKE.with(|v| v.set(false));
+		let worst_hint = crate::capture::SIZE_HINT_WATCH.with(|w| w.replace((usize::MAX, None))).1;
 		out.evals = 1;
 		let ok = dec.res.is_ok();
+		if let Some(h) = worst_hint {
+			// what a caller's Vec / HashMap reserves on the word of the accessor: a number written in the input
+			out.fail("C04:size-hint-exceeds-what-the-input-can-hold", format!("a sequence / map accessor's size_hint() said {h} elements (each at least one byte wide) for a {len}-byte input"));
+			return out;
+		}
 		let lim = &scn.limits;
 		let path_label = match &scn.path {
 			Path::Slice => "slice",
